@@ -18,19 +18,19 @@ import (
 // run again.
 type byteClasses struct {
 	muteIdentity bool // liveness sampling runs arms from unknown states: their comparisons must not refine the partition
-	tables     []string
-	distinct   [256]bool
-	thresholds map[int]bool
-	identity   bool
-	yclass     [256]int
-	repOf      [256]int
-	list       []int
-	mem        map[int][]int
-	dirty      bool
-	reasons    []string
-	multi      bool
-	mu         sync.Mutex
-	seeding    bool
+	tables       []string
+	distinct     [256]bool
+	thresholds   map[int]bool
+	identity     bool
+	yclass       [256]int
+	repOf        [256]int
+	list         []int
+	mem          map[int][]int
+	dirty        bool
+	reasons      []string
+	multi        bool
+	mu           sync.Mutex
+	seeding      bool
 }
 
 func newByteClasses(tables []string, multi bool) *byteClasses {
